@@ -25,6 +25,8 @@ func modeOf(s string) (collector.DecodingMode, bool) {
 		return collector.DecodingModeLenientKeepUnknown, true
 	case "drop":
 		return collector.DecodingModeLenientDropUnknown, true
+	case "default": // CollectorInput.DecodingMode left unset: documented to mean strict
+		return "", true
 	}
 	return "", false
 }
